@@ -888,14 +888,18 @@ func (c *Conn) dispatch(fr *FrameHeader) bool {
 	// would wedge the RoundTrip that is waiting to take it back.
 	defer r.release()
 
+	// END_STREAM is defined for HEADERS and DATA. The same bit on any other
+	// frame type means nothing and must be ignored (RFC 7540 4.1).
+	endStream := fr.Flags().Has(FlagEndStream) && (fr.Type() == FrameHeaders || fr.Type() == FrameData)
+
 	err := c.readStream(fr, r)
-	if err == nil && fr.Flags().Has(FlagEndStream) && !r.statusSeen {
+	if err == nil && endStream && !r.statusSeen {
 		// The response is over and never said how it went.
 		err = errInvalidStatus
 	}
 
 	if err == nil {
-		if fr.Flags().Has(FlagEndStream) {
+		if endStream {
 			c.finish(r, fr.Stream(), nil)
 		}
 	} else {
